@@ -10,6 +10,7 @@ import (
 	"io/fs"
 	"os"
 	"strings"
+	"syscall"
 	"time"
 
 	"github.com/mimecast/dtail/verif/vrt"
@@ -76,8 +77,12 @@ type State struct {
 	// StdinHang: a terminal nobody types on - a read beyond the script blocks (in virtual time) instead of
 	// reporting end of file
 	StdinHang bool
-	Visible   bool
-	Version   map[string]uint64
+	// FailAt > 0: the FailAt-th mutating operation fails with "no space left on device" (a write after storing half
+	// of its data); unlike CrashAt the program keeps running and sees the error
+	FailAt  int
+	failNow bool
+	Visible bool
+	Version map[string]uint64
 	// ReadDelay makes every read(2) of a file whose name starts with
 	// ReadDelayPrefix take that much virtual time (a slow disk / a huge file).
 	ReadDelay       time.Duration
@@ -116,9 +121,26 @@ func mutate(desc string) bool {
 		S.OpLog = append(S.OpLog, "CRASH before "+desc)
 		panic(CrashSentinel{S.Ops})
 	}
+	if S.FailAt > 0 && S.Ops == S.FailAt && strings.HasPrefix(desc, "write ") {
+		// an I/O error (disk full, quota, rlimit) at this write: it stores half of its data and fails
+		S.failNow = true
+		S.OpLog = append(S.OpLog, "ENOSPC at "+desc)
+		return true
+	}
 	S.OpLog = append(S.OpLog, desc)
 	return true
 }
+
+// failed reports (once) that the operation just admitted by mutate is the one chosen to fail.
+func failed() bool {
+	if S.failNow {
+		S.failNow = false
+		return true
+	}
+	return false
+}
+
+var errNoSpace = &os.PathError{Op: "write", Path: "", Err: syscall.ENOSPC}
 
 var errFrozen = &os.PathError{Op: "frozen", Path: "", Err: os.ErrClosed}
 
@@ -241,6 +263,10 @@ func (f *File) Write(p []byte) (int, error) {
 	if !mutate("write " + f.name + " " + quote(string(p))) {
 		return 0, errFrozen
 	}
+	if failed() {
+		n, _ := f.f.Write(p[:len(p)/2])
+		return n, errNoSpace
+	}
 	return f.f.Write(p)
 }
 
@@ -248,6 +274,10 @@ func (f *File) WriteString(s string) (int, error) {
 	visible("fswrite", f.name)
 	if !mutate("write " + f.name + " " + quote(s)) {
 		return 0, errFrozen
+	}
+	if failed() {
+		n, _ := f.f.WriteString(s[:len(s)/2])
+		return n, errNoSpace
 	}
 	return f.f.WriteString(s)
 }
